@@ -62,7 +62,7 @@ try:
     for c in checks:
         env = dict(os.environ, VERIF_REPO=a.wt, VERIF_EVIDENCE_DIR="/tmp/verif_mutant_out/evidence", VERIF_REPLAY_DIR="/tmp/verif_mutant_out/replays")
         t0 = time.time()
-        rc, out, err = sh(["/verif/check", c, "--tier", a.tier], env=env)
+        rc, out, err = sh([os.environ.get("VERIF_CHECK_CMD", "/verif/check"), c, "--tier", a.tier], env=env)
         sigs = []
         for l in out.splitlines():
             l2 = l.strip()
